@@ -39,6 +39,53 @@ CHECKS["C10"] = dict(
          "reader behaviour; raw RTF fragments the user supplies on purpose (input restriction).",
     ref="DESIGN.md §4 C10")
 
+CHECKS["C11"] = dict(
+    technique="table confluence + regex-AST/table agreement + CFG gating rules over the text-conversion pipeline",
+    text="Static argument (A) for the table-driven part: the ordered replacement table is confluent (no output re-translated, no "
+         "key destroyed, documented token set exactly); the tokenizer regex, parsed with re._parser, has the documented form and "
+         "is matched against every one of the 682 dictionary keys (exhaustive); control words injected before the LaTeX pass hit "
+         "the dictionary exactly for \\geq/\\leq; the mapper table is the dictionary itself; conversion is one left-to-right "
+         "pattern.sub with whole-match lookup and identity on miss. Necessary conditions (N): both passes are control-dependent "
+         "on the cell's convert flag, nothing else rewrites the text, convert= is fed from text_convert, component defaults.",
+    note=TRUSTED + "str.replace/re.sub behave as documented. Not decided: conversion results for arbitrary strings beyond what "
+         "follows from the table/regex/gating rules.",
+    ref="DESIGN.md §4 C11")
+
+CHECKS["C12"] = dict(
+    technique="typestate over the call graph with CFG dominance (colour context), pipeline normal-form agreement, exhaustive table integrity",
+    text="Static argument (A): context typestate is propagated from rtf_encode over the call graph; the context-dependent index "
+         "lookup is never entered unless a dominating set_document_context(document) precedes and no clear intervenes, on all "
+         "three encode paths; table and index are computed by the same filter/validate/sort pipeline with one unconditional entry "
+         "per colour after one default entry and index = position+1; colour control words take parameters only from the lookup; "
+         "the collector reads every component and every emitted colour attribute; the 657-row master table and its derived maps "
+         "agree (exhaustive); font ids = legal numbers - 1 with \\f{font-1} references.",
+    note=TRUSTED + "Not decided: that each concrete element carries the requested colour (needs C09's binding rules as well).",
+    ref="DESIGN.md §4 C12")
+
+CHECKS["C14"] = dict(
+    technique="CFG pairing with exceptional edges + interprocedural ownership (freshness) analysis + effect/determinism rules",
+    text="Static argument (A) for the state clauses: set/clear of the colour context is paired on every normal and exceptional exit; "
+         "no process state is written except idempotent constant registrations; no time/random/env/hash-order dependence; no "
+         "memoisation. Ownership (A relative to the alias model): every store or mutator on a user-facing component on the "
+         "construction/encode call graphs goes through an object created by that call (flow-sensitive freshness, parameters fresh "
+         "only if fresh at every call site); no in-place frame operation. Violations found on the current tree are recorded as "
+         "known findings (caller-owned components are modified by RTFDocument.__init__ and _encode_multi_section).",
+    note=TRUSTED + "Internal classes (PageContext, BroadcastValue, Cell…) are never user-supplied; deepcopy/model_copy(deep)/clone "
+         "share no mutable state with their source; aliasing through container elements is tracked only to depth 1. Not decided: "
+         "equality with a fresh interpreter's output for concrete histories.",
+    ref="DESIGN.md §4 C14")
+
+CHECKS["C15"] = dict(
+    technique="shared-state inventory + effect analysis over the call graph (sufficient condition for schedule independence)",
+    text="Static argument (A, sufficient condition): no function reachable from rtf_encode writes process-shared mutable state "
+         "(module-level containers/instances, singleton attributes, class-level containers or rebindable attributes, including "
+         "those reached through self), except state held in contextvars.ContextVar/threading.local and idempotent registrations "
+         "of constant (name, class) pairs; no memoised function on the graph. If nothing shared is written, every interleaving "
+         "equals the sequential runs.",
+    note=TRUSTED + "Documents encoded concurrently are distinct objects; third-party libraries are thread-safe for independent "
+         "objects. Interleavings inside third-party code are not analysed.",
+    ref="DESIGN.md §4 C15")
+
 NOT_YET = "check not built yet in this session (design in DESIGN.md); claimed once its checker exists"
 
 NOT_APPLICABLE: dict[str, str] = {}
